@@ -114,6 +114,19 @@ EXTRA2 = {
 for _k, _v in EXTRA2.items():
     CLAIMS[_k]['text'] += _v
 
+B1 = ' The loop of the default gcdx keeps the Bezout invariant x = s0*X + t0*Y, y = s1*X + t1*Y (E3.B1: inductive polynomial identity over the back-edge values).'
+S5 = ' Transforms built after a block was tested zero are checked modulo that block; on every returning path t_src : n -> n-r and t_tgt : m -> m-r (E17.S5: shapes as affine forms in m, n, r).'
+T11 = ' Braid::closure emits exactly one crossing per letter of self.elements, not of a copy a callee rewrote (E7.T11).'
+E34T = ' A term is inserted into the map of an Lc only after a failed lookup of its generator - colliding generators add, never overwrite (E34).'
+EXTRA3 = {
+ 'C07': B1, 'C09': B1, 'C15': B1, 'C12': S5, 'C08': S5, 'C18': T11, 'C02': T11,
+ 'C20': ' parse_pair returns (text before the comma, text after it), whichever splitter produced the pieces (E10.R9).',
+ 'C19': ' khi::ssi::div reads d0 from a degree-0 cycle and d1 from a degree-1 cycle on the reduced and the unreduced path (E7b.K11).',
+ 'C06': E34T, 'C16': E34T,
+}
+for _k, _v in EXTRA3.items():
+    CLAIMS[_k]['text'] += _v
+
 NA = {
 }
 PENDING = 'not claimed at this commit: its static check (DESIGN.md §4) is still being built'
